@@ -19,6 +19,9 @@ def run(rep):
     rep.guard(k4, rep, w)
     rep.guard(k5, rep, w)
     rep.guard(k6, rep, w)
+    rep.guard(k7, rep, w)
+    import c04
+    rep.guard(c04.b12, rep, w)    # methods are constants of the class body's chunk: two different functions sharing one constant slot make one class answer with the other's method
     import c06
     rep.guard(c06.s10, rep, w, 'C07')   # nothing a program declares can take the place of the hidden `super` / `self`
     import c18
@@ -482,3 +485,48 @@ def k6(rep, w):
                 popped |= n.endswith('pop')
     r.check(bool(stacks) and pushed and popped, 'class_declaration pushes a record when a class opens and pops it when it closes',
             'class_declaration does not push / pop the per-class stack super_ consults (push %s, pop %s)' % (pushed, popped), cd.loc())
+
+
+def k7(rep, w):
+    """`x.f(a)` on a function kept in a field is `(x.f)(a)`: the value being called sits in the callee slot of the new frame (slot zero: where a
+    plain function finds itself, and what a bound method's receiver replaces). call_value(v, n) is therefore only ever given the value that
+    slot n holds - read from it with peek(n), or written to it with poke(n, v) beforehand."""
+    r = rep.rule('K7', 'call_value(v, n) is given the value in slot n: read with peek(n) or stored there with poke(n, v) first', floor=4)
+    VMP = 'yarel::vm::Vm::'
+    for f in sorted(w.yarel.fns.values(), key=lambda x: x.path):
+        sites = [(bi, t) for bi, t in f.calls() if callee_name(t) == VMP + 'call_value' and len(t['args']) >= 3]
+        if not sites:
+            continue
+        org = origins(f)
+        dom = f.dominators()
+
+        def same_count(a, b):
+            ka, kb = op_const(a), op_const(b)
+            if ka is not None or kb is not None:
+                return ka is not None and kb is not None and ka.get('v') == kb.get('v')
+            pa, pb = op_place(a), op_place(b)
+            if pa is None or pb is None:
+                return False
+            ra = {q for q in org.get(pa['l'], ())} or {(('local', pa['l']),)}
+            rb = {q for q in org.get(pb['l'], ())} or {(('local', pb['l']),)}
+            return bool(ra & rb)
+        for bi, t in sites:
+            v, n = t['args'][1], t['args'][2]
+            pv = op_place(v)
+            ok = False
+            roots = org.get(pv['l'], ()) if pv is not None else ()
+            # read from the slot
+            for q in roots:
+                if q[0][0] == 'call' and q[0][2] == VMP + 'peek':
+                    pk = f.blocks[q[0][1]]['t']
+                    if same_count(pk['args'][1], n) and not [x for x in q[1:] if x not in ('*',) and not x.startswith('@')]:
+                        ok = True
+            # or stored into it on the way
+            for bj, t2 in f.calls():
+                if callee_name(t2) == VMP + 'poke' and bj in dom.get(bi, ()) and same_count(t2['args'][1], n):
+                    p2 = op_place(t2['args'][2])
+                    if p2 is not None and pv is not None and (set(org.get(p2['l'], ())) & set(roots) or p2['l'] == pv['l']):
+                        ok = True
+            r.check(ok, '%s / call_value at site %d' % (f.path, sites.index((bi, t))),
+                    'call_value is handed a value that is neither read from the callee slot nor stored there first: the new frame\'s slot zero holds something else '
+                    '(the receiver `x` of `x.f(a)`), which a function that refers to itself - or any code reading slot zero - then takes for the callee', f.loc(t.get('sp')))
